@@ -37,6 +37,10 @@ def seed(name):
         return fem.Grid(np.array([1.0, 2.0, 4.0]), np.array([1.0, 2.0])), {"extent": 3 * 1 * SC ** 2}
     if name == "Grid3":
         return fem.Grid(np.array([0.0, 1.0, 3.0]), np.array([0.0, 2.0]), np.array([0.0, 1.0])), {"extent": 3 * 2 * 1 * SC ** 3}
+    if name == "GridInt2":
+        return fem.Grid(np.array([1, 2, 4]), np.array([1, 2])), {"extent": 3 * 1 * SC ** 2}
+    if name == "GridInt3":
+        return fem.Grid(np.array([0, 1, 3]), np.array([0, 2]), np.array([0, 1])), {"extent": 3 * 2 * 1 * SC ** 3}
     if name == "Trapezoid":        # quads with non-parallel opposite edges (width tapers from 2 to 1 over the height)
         m = fem.Rectangle(a=(1, 1), b=(3, 2), n=(2, 2))          # one cell with integer corners (1,1) (3,1) (2,2) (1,2): stays on the
         p = m.points.copy()                                      # 1/8 lattice under mid-point insertion and inside the magnitude
